@@ -2365,7 +2365,8 @@ class Kconfig(object):
                     continue
 
                 name, val = match.groups()
-                if name in self.syms:
+                if name in self.syms and self.syms[name].nodes:
+                    # (a symbol that is still referenced but no longer defined is gone too)
                     sym = self.syms[name]
 
                     if sym.orig_type is STRING:
